@@ -210,15 +210,19 @@ def sc_wass_sparse(rng, metric, sid):
     calls.append({"name": "pad", "data": enc_pad(rng, base, False), "memory_size": rng.choice(MEMS), "cmp": "base"})
     calls.append({"name": "pad0", "data": enc_pad(rng, base, True), "memory_size": rng.choice(MEMS), "cmp": "base"})
     calls.append({"name": "perm", "data": enc_perm(rng, base), "memory_size": rng.choice(MEMS), "cmp": "base"})
-    # the measure decides the FITTED model too (default reference included): fit on another storage of the same matrix
-    calls.append({"name": "refit:stored-zeros", "data": enc_stored_zeros(rng, base), "refit": True, "cmp": "fit"})
-    calls.append({"name": "refit:scale", "data": enc_scale(rng, base), "refit": True, "cmp": "fit"})
-    # ... and with the DEFAULT reference (reference_size=None: its size is the median support size of the rows)
-    calls.append({"name": "refit:defref:base", "data": base, "refit": True, "default_ref": True, "cmp": None})
-    calls.append({"name": "refit:defref:stored-zeros", "data": enc_stored_zeros(rng, base), "refit": True, "default_ref": True,
-                  "cmp": "refit:defref:base"})
-    calls.append({"name": "refit:defref:scale", "data": enc_scale(rng, base), "refit": True, "default_ref": True,
-                  "cmp": "refit:defref:base"})
+    if metric in ("cosine", "euclidean"):
+        # (L1 / L-infinity ground costs make the transport LP degenerate on open sets of inputs: optimal plans are then not
+        # unique and the embedding of a whole refit cannot be compared row by row; the transform-level calls above skip
+        # such rows by their dual-slack margin)
+        # the measure decides the FITTED model too (default reference included): fit on another storage of the same matrix
+        calls.append({"name": "refit:stored-zeros", "data": enc_stored_zeros(rng, base), "refit": True, "cmp": "fit"})
+        calls.append({"name": "refit:scale", "data": enc_scale(rng, base), "refit": True, "cmp": "fit"})
+        # ... and with the DEFAULT reference (reference_size=None: its size is the median support size of the rows)
+        calls.append({"name": "refit:defref:base", "data": base, "refit": True, "default_ref": True, "cmp": None})
+        calls.append({"name": "refit:defref:stored-zeros", "data": enc_stored_zeros(rng, base), "refit": True, "default_ref": True,
+                      "cmp": "refit:defref:base"})
+        calls.append({"name": "refit:defref:scale", "data": enc_scale(rng, base), "refit": True, "default_ref": True,
+                      "cmp": "refit:defref:base"})
     calls.append({"name": "split", "data": enc_split(rng, base), "memory_size": rng.choice(MEMS), "cmp": "base"})
     calls.append({"name": "split01", "data": enc_split(rng, base, True), "memory_size": rng.choice(MEMS), "cmp": "base"})
     combo = enc_perm(rng, enc_split(rng, enc_pad(rng, enc_scale(rng, base), True)))
